@@ -34,7 +34,7 @@ def toy_tables(ctx, curves, modes, zmax_fn, rsmax_fn):
         cfg, n, g = sigs_cfg(ctx, p, a, b)
         for mode in modes:
             jobs.append((lambda cfg=cfg, mode=mode, n=n, p=p, a=a, b=b, g=g:
-                         ((p, a, b, n, g), mode, ctx.table("curve/MC_Sigs.tla", cfg, env={"MODE": mode, "ZMAX": zmax_fn(n), "RSMAX": rsmax_fn(n)}, timeout=3000))))
+                         ((p, a, b, n, g), mode, ctx.table("curve/MC_Sigs.tla", cfg, env={"MODE": mode, "ZMAX": zmax_fn(n), "RSMAX": rsmax_fn(n)}, timeout=7200))))
     return ctx.parallel(jobs, workers=8)
 
 
@@ -200,7 +200,7 @@ def run(ctx):
         cases = real_cases(ctx, rng, 10 if q else 120)
         byid = {c["id"]: c for c in cases}
         send = [{k: v for k, v in c.items() if k not in ("name", "raw", "zcls")} for c in cases]
-        bad = ctx.validate("curve/SigCases.tla", send, "SigCases.cfg", timeout=3000, per_shard_min=6)
+        bad = ctx.validate("curve/SigCases.tla", send, "SigCases.cfg", timeout=7200, per_shard_min=6)
         for cid, why in bad.items():
             c = byid[cid]
             cls = c.get("name") or c.get("zcls")
